@@ -335,8 +335,9 @@ pub struct Session {
     // keeps the peer's send window sliding even when no link-level flow is generated.
     pub(crate) need_flow_count: u32,
     pub(crate) remote_incoming_window: SequenceNo,
-    // Outgoing transfers that are blocked by the remote-incoming-window
-    pub(crate) remote_incoming_window_exhausted_buffer: VecDeque<(InputHandle, Transfer, Payload)>,
+    // Outgoing transfers that are blocked by the remote-incoming-window, and the detach of a
+    // link that has to wait until its transfers are out
+    pub(crate) remote_incoming_window_exhausted_buffer: VecDeque<HeldFrame>,
 
     // The remote-outgoing-window reflects the maximum number of incoming transfers that MAY
     // arrive without exceeding the remote endpoint’s outgoing-window. This value MUST be
@@ -392,6 +393,12 @@ impl Session {
         ) -> Result<SessionHandle<()>, BeginError> {
             Session::builder().begin(conn).await
         }
+    }
+
+    fn on_outgoing_detach_inner(&mut self, detach: Detach) -> SessionFrame {
+        endpoint::Session::deallocate_link(self, detach.handle.clone().into());
+        let body = SessionFrameBody::Detach(detach);
+        SessionFrame::new(self.outgoing_channel, body)
     }
 
     fn on_outgoing_transfer_inner(
@@ -566,15 +573,23 @@ impl Session {
         &mut self,
         mut output_frame_buffer: Vec<SessionFrame>,
     ) -> Result<Vec<SessionFrame>, SessionInnerError> {
-        // Drain the buffered transfers as much as possible
-        while self.remote_incoming_window > 0 {
-            if let Some((input_handle, transfer, payload)) =
-                self.remote_incoming_window_exhausted_buffer.pop_front()
-            {
-                let frame = self.on_outgoing_transfer_inner(input_handle, transfer, payload)?;
-                output_frame_buffer.push(frame);
-            } else {
-                break;
+        // Drain what is held back as far as the window allows. A held detach takes no place
+        // in the window; it is behind the transfers of its link and leaves right after them.
+        loop {
+            let window_open = self.remote_incoming_window > 0;
+            match self.remote_incoming_window_exhausted_buffer.pop_front() {
+                Some(HeldFrame::Transfer(input_handle, transfer, payload)) if window_open => {
+                    let frame = self.on_outgoing_transfer_inner(input_handle, transfer, payload)?;
+                    output_frame_buffer.push(frame);
+                }
+                Some(HeldFrame::Detach(detach)) => {
+                    output_frame_buffer.push(self.on_outgoing_detach_inner(detach));
+                }
+                Some(held) => {
+                    self.remote_incoming_window_exhausted_buffer.push_front(held);
+                    break;
+                }
+                None => break,
             }
         }
         Ok(output_frame_buffer)
@@ -599,14 +614,22 @@ impl Session {
                 self.on_outgoing_transfer_inner(cur_input_handle, cur_transfer, cur_payload)?;
             frames.push(frame);
         } else {
-            self.remote_incoming_window_exhausted_buffer.push_back((
-                cur_input_handle,
-                cur_transfer,
-                cur_payload,
-            ));
+            self.remote_incoming_window_exhausted_buffer
+                .push_back(HeldFrame::Transfer(cur_input_handle, cur_transfer, cur_payload));
         }
         Ok(frames)
     }
+}
+
+/// What waits in `remote_incoming_window_exhausted_buffer`, in the order it was handed over
+#[derive(Debug)]
+pub(crate) enum HeldFrame {
+    /// A transfer that the remote-incoming-window does not allow yet
+    Transfer(InputHandle, Transfer, Payload),
+
+    /// The detach of a link some of whose transfers are still held: it goes out after them.
+    /// A detach takes no place in the window.
+    Detach(Detach),
 }
 
 impl Drop for Session {
@@ -1115,11 +1138,8 @@ impl endpoint::Session for Session {
         // Check if remote-incoming-window is exhausted
         if self.remote_incoming_window == 0 {
             // exhausted
-            self.remote_incoming_window_exhausted_buffer.push_back((
-                input_handle,
-                transfer,
-                payload,
-            ));
+            self.remote_incoming_window_exhausted_buffer
+                .push_back(HeldFrame::Transfer(input_handle, transfer, payload));
             Ok(None)
         } else if self.remote_incoming_window_exhausted_buffer.is_empty() {
             // no buffered transfer
@@ -1170,10 +1190,20 @@ impl endpoint::Session for Session {
         Ok(frame)
     }
 
-    fn on_outgoing_detach(&mut self, detach: Detach) -> SessionFrame {
-        self.deallocate_link(detach.handle.clone().into());
-        let body = SessionFrameBody::Detach(detach);
-        SessionFrame::new(self.outgoing_channel, body)
+    fn on_outgoing_detach(&mut self, detach: Detach) -> Option<SessionFrame> {
+        // Transfers of this link that the peer's window still holds back were handed over
+        // before the detach and have to reach the peer before it: the detach waits behind them.
+        let held = self
+            .remote_incoming_window_exhausted_buffer
+            .iter()
+            .any(|frame| matches!(frame, HeldFrame::Transfer(_, transfer, _) if transfer.handle == detach.handle));
+        if held {
+            self.remote_incoming_window_exhausted_buffer
+                .push_back(HeldFrame::Detach(detach));
+            None
+        } else {
+            Some(self.on_outgoing_detach_inner(detach))
+        }
     }
 }
 
